@@ -610,12 +610,8 @@ class IPPO(MultiAgentRLAlgorithm):
         log_probs, rewards, dones, values = map(
             vectorize_experiences_by_agent, (log_probs, rewards, dones, values)
         )
-        log_probs = log_probs.squeeze()
-        rewards = rewards.squeeze()
-        dones = dones.squeeze()
-        values = values.squeeze()
         next_state = vectorize_experiences_by_agent(next_state, dim=0)
-        next_done = vectorize_experiences_by_agent(next_done)
+        next_done = vectorize_experiences_by_agent(next_done, dim=0)
 
         # Bootstrapping returns using GAE advantage estimation
         dones = dones.long()
@@ -651,13 +647,19 @@ class IPPO(MultiAgentRLAlgorithm):
                     + self.gamma * self.gae_lambda * next_non_terminal * last_gae_lambda
                 )
 
-            advantages = advantages.reshape((-1,))
-            values = values.reshape((-1,))
+            # flatten in (agent, step, env) order, the row order of the concatenated states/actions
+            n_agents = len(states)
+
+            def flatten_by_agent(x: torch.Tensor) -> torch.Tensor:
+                return x.reshape(num_steps, n_agents, -1).transpose(0, 1).reshape((-1,))
+
+            advantages = flatten_by_agent(advantages)
+            values = flatten_by_agent(values)
             returns = advantages + values
 
         states = concatenate_experiences_into_batches(states, obs_space)
         actions = concatenate_experiences_into_batches(actions, action_space)
-        log_probs = log_probs.reshape((-1,))
+        log_probs = flatten_by_agent(log_probs)
         experiences = (states, actions, log_probs, advantages, returns, values)
 
         # Move experiences to algo device
